@@ -54,13 +54,8 @@ def cases(rng, tier):
 
 def tail_boundary_sizes(limit):
     """K' whose initial dense tail (P = L - W columns) ends on or next to a 64-bit word boundary"""
-    import re
-    src = open(C.REPO + "/src/systematic_constants.rs").read()
-    body = src[src.index("SYSTEMATIC_INDICES_AND_PARAMETERS") :]
-    body = body[body.index("= [") : body.index("];")]
     out = []
-    for m in re.finditer(r"\((\d+),\s*(\d+),\s*(\d+),\s*(\d+),\s*(\d+)\)", body):
-        kp, j, s, h, w = (int(x) for x in m.groups())
+    for kp, j, s, h, w in C.repo_table2()[0]:
         if kp <= limit and (kp + s + h - w) % 64 in (63, 0, 1):
             out.append(kp)
     return out
